@@ -14,6 +14,7 @@ TECHNIQUE = "deterministic simulation with fault injection: mixed connection out
 RULE = ("plans: 3-40 connections mixing successful tunnels (known payload sizes, early data), denied, upstream-refused, aborted mid-handshake, aborted mid-transfer, "
         "TLS handshake failures, bad requests and UDP associations; historySize in {0,1,3,100}; POST /logrotate and SIGUSR1 at seeded instants; /live polled at seeded "
         "instants; buffered and splice I/O; non-trivial = at least two different outcome kinds and >= 3 connections; distinct = event-order hash")
+RULE_MORE = 'Later additions: crowds of 130-220 connections ending within one collector period; tunnels through upstream proxies that glue a banner to their reply; clients that dawdle for seconds in the middle of their request (listed live all the while).'
 LEVEL_TEXT = ("seeded exploration of the real registry, GC task, access-log task and API: the harness knows every connection it opened, what it asked for, how many payload "
               "bytes went each way and when it ended, and checks ids, exactly-once logging, bounded newest-first history, the lifecycle automaton with one terminal state, "
               "truthful listener/source/target/connector fields, byte counters and /live membership at every poll")
